@@ -33,6 +33,22 @@ POISON_QUICK = [(0x00, 0xFF), (0xFF, 0x00), (0x7F, 0xC3), (0xC3, 0x7F)]
 CAPACITY_BITS = 0x1FF  # everything except ITERATIONS / LS_ITERATIONS
 
 
+# Data fields that legitimately persist outside the integration state (justified one by one):
+PERSISTENT = {
+  "overflow": "sticky by design: bits are only cleared by reset_data",
+  "geom_xpos": "static (world-attached) geoms are positioned once in make_data and never recomputed (smooth.py geom kinematics skips them)",
+  "geom_xmat": "same as geom_xpos",
+  "xquat": "world body entry is set once in make_data",
+  "xmat": "world body entry is set once in make_data",
+  "ximat": "world body entry is set once in make_data",
+  "xpos": "world body entry",
+  "xipos": "world body entry",
+  "nworld": "", "naconmax": "", "njmax": "",
+}
+STATE = ("time", "qpos", "qvel", "act", "history", "qacc_warmstart", "ctrl", "qfrc_applied", "xfrc_applied", "eq_active", "mocap_pos", "mocap_quat", "userdata")
+FIELD_CHUNKS = 12
+
+
 def scenarios(tier, seed):
   from mc.world import POISON_ALPHABET
 
@@ -40,6 +56,10 @@ def scenarios(tier, seed):
   opts = ['jacobian="dense"', 'jacobian="sparse"'] + (['integrator="implicitfast"'] if tier == "thorough" else [])
   pois = POISON_QUICK if tier == "quick" else [(a, b) for a in POISON_ALPHABET for b in POISON_ALPHABET]
   out = []
+  # family 2: every non-state Data array, one at a time, overwritten with each poison pattern before the step
+  for opt in ['cone="elliptic" jacobian="dense"', 'jacobian="sparse"', 'cone="elliptic" jacobian="sparse" integrator="implicitfast"'] + (['solver="CG"', 'integrator="RK4"'] if tier == "thorough" else []):
+    for chunk in range(FIELD_CHUNKS):
+      out.append(dict(kind="poison_field", opt=opt, chunk=chunk, variant=seed % 4))
   for opt in opts:
     for cap in ("ample", "tight"):
       for p1, p0 in pois:
@@ -70,10 +90,83 @@ def _mk(mjm, cap, variant):
   return d
 
 
+def _data_arrays(d):
+  """(name, warp array) for every non-empty array of Data, Contact and Constraint."""
+  import dataclasses
+
+  import warp as wp
+
+  out = []
+  for f in dataclasses.fields(type(d)):
+    v = getattr(d, f.name)
+    if isinstance(v, wp.array):
+      if v.size:
+        out.append((f.name, v))
+    elif dataclasses.is_dataclass(v):
+      for g in dataclasses.fields(type(v)):
+        a = getattr(v, g.name)
+        if isinstance(a, wp.array) and a.size:
+          out.append((f"{f.name}.{g.name}", a))
+  return out
+
+
+def _poison_field(scn):
+  """One non-state array at a time is overwritten with a poison pattern on a Data that already ran forward(); step()
+  must not notice (the array must be written before it is read), otherwise it is hidden state."""
+  import ctypes
+
+  import mujoco_warp as mjw
+
+  mjm, m = _model(scn["opt"])
+  c = util.Cmp()
+  ref = _mk(mjm, "ample", scn["variant"])
+  mjw.forward(m, ref)
+  mjw.step(m, ref)
+  want = snap.take(m, ref)
+  names = [n for n, _ in _data_arrays(ref)]
+  mine = [n for i, n in enumerate(names) if i % FIELD_CHUNKS == scn["chunk"]]
+  counts = dict(transitions=0, traces_validated_against_impl=0, states=1, fields_poisoned=0, fields_exempt=0, extra_evaluations=0)
+  for name in mine:
+    if name in STATE or name in PERSISTENT or name.split(".")[-1] in PERSISTENT:
+      counts["fields_exempt"] += 1
+      continue
+    counts["fields_poisoned"] += 1
+    # finite patterns only (-390.76 / 0.186 / 0 as float32; large negative / positive / 0 as int32): stale contents are
+    # values left by earlier steps; NaN contents would presuppose an earlier diverged step (dense tile products mask unused
+    # rows by multiplying with 0, which NaN survives)
+    for byte in (0xC3, 0x3E, 0x00):
+      d = _mk(mjm, "ample", scn["variant"])
+      mjw.forward(m, d)
+      arr = dict(_data_arrays(d))[name]
+      if name == "efc.J" and not m.is_sparse:
+        # dense J is allocated (njmax_pad, nv_pad): the padding is zeroed once by make_data and read by the tile kernels,
+        # i.e. a constant of the Data object, not history -- poison only the logical (njmax, nv) region
+        a = arr.numpy()
+        a[:, : d.njmax, : m.nv] = np.frombuffer(bytes([byte]) * 4, dtype=np.float32)[0]
+        util.set_field(arr, a)
+      else:
+        ctypes.memset(arr.ptr, byte, arr.capacity)
+      mjw.step(m, d)
+      got = snap.take(m, d)
+      counts["transitions"] += 2
+      counts["traces_validated_against_impl"] += 1
+      counts["extra_evaluations"] += 1
+      cc = util.Cmp()
+      snap.compare_exact(cc, got, want, pre=f"Data.{name} overwritten with 0x{byte:02X} bytes after forward(): step() result differs: ")
+      if cc.violations:
+        v = cc.violations[0]
+        v["vkey"] = f"hidden_state:{name}"
+        c.violations.append(v)
+        break
+  return c.result(nontrivial=counts["fields_poisoned"] > 0, key=util.sha(scn), counts=counts, info=dict(fields=mine))
+
+
 def execute(scn):
   import mujoco_warp as mjw
   from mc import world
 
+  if scn.get("kind") == "poison_field":
+    return _poison_field(scn)
   mjm, m = _model(scn["opt"])
   c = util.Cmp()
   hs = [[]] if scn["first"] is None else hist.histories(ALPHABET, scn["depth"], first=scn["first"])
